@@ -74,6 +74,7 @@ func main() {
 	runLibraryTies(f, res, drv)
 	runWrites(f, res, drv)
 	runSequences(f, res, drv)
+	runRaces(f, res, drv)
 	if err := res.Write(f.Out); err != nil {
 		lib.Fatal(err)
 	}
@@ -85,6 +86,10 @@ func replay(f lib.Flags) int {
 		lib.Fatal(err)
 	}
 	b, _ := json.Marshal(rp.Input)
+	var rc rcase
+	if err := json.Unmarshal(b, &rc); err == nil && rc.Root != "" && rc.Outer.Src != "" {
+		return replayRace(rc)
+	}
 	var sc scase
 	if err := json.Unmarshal(b, &sc); err == nil && sc.Root != "" && len(sc.Steps) > 0 {
 		return replaySeq(sc)
